@@ -65,14 +65,23 @@ Close Scope string_scope.
 Definition i64_lo : Z := (-9223372036854775808)%Z.
 Definition i64_hi : Z := 9223372036854775807%Z.
 
+Fixpoint nodup_ustr (l : list ustring) : bool :=
+  match l with
+  | [] => true
+  | x :: r => negb (mem_ustr x r) && nodup_ustr r
+  end.
+
 (* instance domain of the theorems (DESIGN 3.2/3.4): integers are written as
-   integer literals within i64; no integral-valued float literal anywhere *)
+   integer literals within i64; no integral-valued float literal anywhere; the
+   member names of an object are pairwise distinct (the specification reads
+   objects as finite maps, Spec/Valid.v; serde rejects a repeated key where it
+   matters) *)
 Fixpoint in_dom (v : json) : bool :=
   match v with
   | JInt z => Z.leb i64_lo z && Z.leb z i64_hi
   | JFlt q => negb (is_integral q)
   | JArr l => forallb in_dom l
-  | JObj kvs => forallb (fun kv => in_dom (snd kv)) kvs
+  | JObj kvs => nodup_ustr (map fst kvs) && forallb (fun kv => in_dom (snd kv)) kvs
   | _ => true
   end.
 
@@ -103,12 +112,6 @@ Definition opt_pat (a b : option ustring) : bool :=
 
 Inductive target := TId (t : id) | TProps (ps : list prop) (deny : bool).
 
-Fixpoint nodup_ustr (l : list ustring) : bool :=
-  match l with
-  | [] => true
-  | x :: r => negb (mem_ustr x r) && nodup_ustr r
-  end.
-
 (* the schema {"type":"null"} (other keywords allowed, but no "$ref", whose
    siblings draft-07 ignores) *)
 Definition null_only (b : schema) : bool :=
@@ -128,6 +131,50 @@ Definition option_of (d : details) : option id :=
   match d with DOption t' => Some t' | _ => None end.
 Definition is_json_value (d : details) : bool :=
   match d with DJsonValue => true | _ => false end.
+
+(* typed enum: newtype over [t'] admitting the listed values only *)
+Definition cenum_of (d : details) : option (id * list json) :=
+  match d with DNewtype _ _ t' (CEnum vs) => Some (t', vs) | _ => None end.
+Definition is_scalar (j : json) : bool :=
+  match j with JArr _ | JObj _ => false | _ => true end.
+(* every value of the schema's "enum" is a scalar equal to a value the type admits
+   (scalars only: on them [json_equiv] is symmetric and transitive) *)
+Definition enum_ok (enum : option (list json)) (vs : list json) : bool :=
+  match enum with
+  | Some es => forallb (fun e => is_scalar e && existsb (json_equiv e) vs) es
+  | None => false
+  end.
+
+(* {"type":"string","enum":[strings]} without "$ref": the listed strings *)
+Fixpoint strs (l : list json) : option (list ustring) :=
+  match l with
+  | [] => Some []
+  | JStr x :: r => option_map (cons x) (strs r)
+  | _ => None
+  end.
+Definition str_enum_names (s : schema) : option (list ustring) :=
+  match s with
+  | SBool _ => None
+  | SObj ty _ enum _ _ _ _ _ _ _ _ _ _ _ _ _ _ _ _ _ _ ref _ _ =>
+      match ty, enum, ref with
+      | Some [TString], Some es, None => strs es
+      | _, _, _ => None
+      end
+  end.
+
+Definition is_ap_false (ap : option schema) : bool :=
+  match ap with Some (SBool false) => true | _ => false end.
+
+(* the enum value [e] is a string naming a unit variant *)
+Definition str_simple (vs : list variant) (e : json) : bool :=
+  match e with
+  | JStr x =>
+      match find_variant x vs 0 with
+      | Some (_, v) => match v_det v with VSimple => true | _ => false end
+      | None => false
+      end
+  | _ => false
+  end.
 
 Section Covers.
   Variable re_match : ustring -> ustring -> bool.
@@ -191,6 +238,70 @@ Section Covers.
       | VStruct ps => cov b nn (TProps ps deny)
       | VSimple => null_only b
       | VTuple _ => false
+      end.
+
+    (* the payload schema [sc] of a tagged variant against the variant's data *)
+    Definition payload_ok (sc : schema) (deny : bool) (v : variant) : bool :=
+      match v_det v with
+      | VItem t' => cov sc false (TId t')
+      | VStruct ps => cov sc false (TProps ps deny)
+      | _ => false
+      end.
+
+    (* a branch of oneOf/anyOf against an externally tagged enum: a string enum
+       of unit variants, or {"K": payload} for the variant named K *)
+    Definition external_branch_ok (vs : list variant) (deny nn : bool) (b : schema) : bool :=
+      match b with
+      | SBool _ => false
+      | SObj ty _ enum _ _ _ _ _ _ _ _ _ props req ap _ _ allo anyo oneo no ref _ _ =>
+          match ref, anyo, oneo, allo, no with
+          | None, None, None, None, None =>
+              (ty_is nn ty [TString]
+               && match enum with Some es => forallb (str_simple vs) es | None => false end)
+              || (ty_is nn ty [TObject] && is_ap_false ap
+                  && match props with
+                     | [kv] =>
+                         mem_ustr (fst kv) req
+                         && match find_variant (fst kv) vs 0 with
+                            | Some (_, vr) => payload_ok (snd kv) deny vr
+                            | None => false
+                            end
+                     | _ => false
+                     end)
+          | _, _, _, _, _ => false
+          end
+      end.
+
+    (* ... against an adjacently tagged enum: {"tag": K, "content": payload} *)
+    Definition adjacent_branch_ok (tg ct : ustring) (vs : list variant) (deny nn : bool) (b : schema) : bool :=
+      match b with
+      | SBool _ => false
+      | SObj ty _ _ _ _ _ _ _ _ _ _ _ props req ap _ _ allo anyo oneo no ref _ _ =>
+          match ref, anyo, oneo, allo, no with
+          | None, None, None, None, None =>
+              ty_is nn ty [TObject] && negb (ustr_eqb tg ct) && mem_ustr tg req
+              && match assoc tg props with
+                 | Some stag =>
+                     match str_enum_names stag with
+                     | Some names =>
+                         forallb (fun x =>
+                           match find_variant x vs 0 with
+                           | Some (_, vr) =>
+                               (* every declared member is the tag or the (covered) content *)
+                               forallb (fun kv => ustr_eqb (fst kv) tg
+                                                  || (ustr_eqb (fst kv) ct && payload_ok (snd kv) deny vr)) props
+                               && (if has_key ct props
+                                   then mem_ustr ct req && (negb deny || is_ap_false ap)
+                                   else match v_det vr with VSimple => true | _ => false end
+                                        && is_ap_false ap)
+                           | None => false
+                           end) names
+                     | None => false
+                     end
+                 | None => false
+                 end
+          | _, _, _, _, _ => false
+          end
       end.
 
     Section Obj.
@@ -279,15 +390,7 @@ Section Covers.
         | DEnum _ _ TagExternal vs _ _ =>
             ty_is nn ty [TString] &&
             match enum with
-            | Some es =>
-                forallb (fun e => match e with
-                                  | JStr x =>
-                                      match find_variant x vs 0 with
-                                      | Some (_, v) => match v_det v with VSimple => true | _ => false end
-                                      | None => false
-                                      end
-                                  | _ => false
-                                  end) es
+            | Some es => forallb (str_simple vs) es
             | None => false
             end
         | DVec t' | DSet t' => ty_is nn ty [TArray] && elem_ok t'
@@ -324,6 +427,8 @@ Section Covers.
             | DEnum _ _ TagUntagged vs deny _ =>
                 (* every branch is taken by some variant *)
                 forallb (fun b => existsb (variant_ok b nn deny) vs) bs
+            | DEnum _ _ TagExternal vs deny _ => forallb (external_branch_ok vs deny nn) bs
+            | DEnum _ _ (TagAdjacent tg ct) vs deny _ => forallb (adjacent_branch_ok tg ct vs deny nn) bs
             | _ => false
             end
         | _, _, _, _, _ => false
@@ -359,7 +464,11 @@ Section Covers.
                     | None, None =>
                         match option_of d with
                         | Some t' => go ft' true t'
-                        | None => leaf_ok nn d
+                        | None =>
+                            match cenum_of d with
+                            | Some (t', vs) => enum_ok enum vs && go ft' nn t'
+                            | None => leaf_ok nn d
+                            end
                         end
                     | _, _ => false
                     end
